@@ -20,7 +20,8 @@ ASSUMPTIONS = ['the wrapped pthread entry points are the only synchronisation in
                'callbacks themselves perform no synchronisation (plain counters)']
 TRUSTED = ['modelled rather than verified: ExecutorThread::{Execute,Start,Stop,RunRemaining,~ExecutorThread}, '
            'ConsumerThread::{Run,EmptyQueue}, Thread::{Start,FastStart,Join,IsRunning,_InternalRun}, '
-           'FutureImpl<T>::{Get,Set,Ref,DeRef}, Future<T> copy/destructor (hand transcription into the '
+           'FutureImpl<T>::{Get,Set,Ref,DeRef}, Future<T> copy/destructor, SelectServer::{Execute,DrainAndExecute,RunCallbacks,'
+           'DrainCallbacks,~SelectServer} with the wake pipe as a counter (hand transcription into the '
            'instruction lists of coq/Progs.v, validated per schedule by trace equality)',
            'props/C17/harness.cpp cooperative scheduler and pthread emulation (ld --wrap)']
 
@@ -83,19 +84,21 @@ def nontrivial(payload, md):
 
 
 LEVEL_TEXT = ('Coq theorems over ALL schedules (induction on the step relation of an explicit-schedule machine with '
-              'spurious wake-ups) for the transcribed ExecutorThread/ConsumerThread/Thread/FutureImpl programs. For the '
-              'ExecutorThread scenario with any number of producers and callbacks: no hazard is reachable, callbacks '
-              'run at most once, in exactly the order queued (hence per-producer order), only by the consumer or by the '
-              'owner in Stop()/destructor and never by the submitter, and when the owner has finished every thread has '
-              'finished, the queue is empty and every submitted callback has run exactly once (c17_exec_once); the wake-up '
-              'invariant and deadlock freedom: every reachable state in which the owner has not finished has a thread that '
-              'can step (c17_wakeup_invariant, c17_no_lost_wakeup); locksets and lock discipline for all programs '
-              '(c17_lockset, c17_lock_discipline, c17_no_bad_unlock); FutureImpl in the raw-pointer pattern of '
-              'DrainCallbacks: no use-after-free or other hazard, Get returns the value set after Set (c17_future_raw). '
-              'NOT proved for all schedules, only checked per enumerated schedule by trace equality with the real classes '
-              'under a cooperative scheduler: FutureImpl with several reference-holding copies (ref count = number of '
-              'holders). NOT modelled at all: ThreadPool, PeriodicThread, SelectServer::Execute/DrainAndExecute, '
-              'FilePreferenceSaverThread::Synchronize, ExecutorThread::DrainCallbacks itself, callbacks that call Execute.')
+              'spurious wake-ups). ExecutorThread with any number of producers/callbacks: no hazard, callbacks run at most '
+              'once, in the order queued, never by the submitter, all run exactly once and queue empty when the owner has '
+              'finished (c17_exec_once); wake-up invariant and deadlock freedom (c17_wakeup_invariant, c17_no_lost_wakeup). '
+              'SelectServer::Execute/DrainAndExecute/RunCallbacks/~SelectServer with any number of producer threads, '
+              'callbacks that call Execute again from inside the callback, any number of RunOnce iterations: same '
+              'exactly-once / order / loop-thread-only / drained-at-destruction statement (c17_ss_exec_once). Locksets and '
+              'lock discipline for all transcribed programs (c17_lockset, c17_lock_discipline, c17_no_bad_unlock). '
+              'FutureImpl: raw-pointer pattern of DrainCallbacks and the two-holder reference-counting pattern: no '
+              'use-after-free/double free/destroy-while-busy, Get returns the value set after Set (c17_future_raw, '
+              'c17_future_two_holders). NOT proved for all schedules, only checked per enumerated schedule by trace equality '
+              'with the real classes under a cooperative scheduler: FutureImpl with more than two holders (extra getter '
+              'threads); ExecutorThread with callbacks that call Execute again (scenario execre; the all-schedules '
+              'theorems are for callbacks that do not re-submit); deadlock freedom of the SelectServer scenario. '
+              'NOT modelled: SelectServer::Terminate (and its unlocked m_is_running read), the poller/timeouts, ThreadPool, '
+              'PeriodicThread, FilePreferenceSaverThread::Synchronize, ExecutorThread::DrainCallbacks itself.')
 LEVEL_NOTE = ('Trusted: Coq kernel, extraction (ExtrOcamlBasic), OCaml/C++ glue, the hand transcription of the C++ '
               'methods into instruction lists (validated by per-schedule trace equality, not proved), the pthread '
               'emulation in the harness (ld --wrap; one thread runs at a time, so real memory-model races are not '
